@@ -476,8 +476,20 @@ def forwarding_subclass():
     return _CUSTOM["sub"]
 
 
-def build(spec, wrap_custom=True):
-    """spec -> live d42 schema, through the public DSL.  Exceptions propagate."""
+def build(spec, wrap_custom=True, share=None):
+    """spec -> live d42 schema, through the public DSL.  Exceptions propagate.
+    share: a dict used as a memo - equal sub-specs are then built once and the *same* schema object
+    is used at every position where that sub-spec occurs (schemas are values: sharing must not matter)."""
+    if share is not None:
+        from . import codec
+        key = codec.dumps(spec)
+        if key not in share:
+            share[key] = _build(spec, wrap_custom, share)
+        return share[key]
+    return _build(spec, wrap_custom, None)
+
+
+def _build(spec, wrap_custom, share):
     from d42 import optional, schema
     t = spec["t"]
     if t == "none":
@@ -510,9 +522,9 @@ def build(spec, wrap_custom=True):
         form = spec["form"]
         s = schema.list
         if form == "typed":
-            s = s(build(spec["elem"], wrap_custom))
+            s = s(build(spec["elem"], wrap_custom, share))
         elif form != "untyped":
-            el = [build(e, wrap_custom) for e in spec["elems"]]
+            el = [build(e, wrap_custom, share) for e in spec["elems"]]
             if form == "head":
                 el = el + [...]
             elif form == "tail":
@@ -534,34 +546,60 @@ def build(spec, wrap_custom=True):
             if at == i:
                 d[...] = ...
             k = optional(e["key"]) if e["opt"] else e["key"]
-            d[k] = build(e["spec"], wrap_custom)
+            d[k] = build(e["spec"], wrap_custom, share)
         if spec.get("relaxed") and ... not in d:
             d[...] = ...
         return schema.dict(d)
     if t == "any":
         if "alts" not in spec:
             return schema.any
-        return schema.any(*[build(a, wrap_custom) for a in spec["alts"]])
+        return schema.any(*[build(a, wrap_custom, share) for a in spec["alts"]])
     if t == "alias":
-        return schema.alias(spec["name"], build(spec["spec"], wrap_custom))
+        return schema.alias(spec["name"], build(spec["spec"], wrap_custom, share))
     if t == "custom":
-        inner = build(spec["spec"], wrap_custom)
+        inner = build(spec["spec"], wrap_custom, share)
         if not wrap_custom:
             return inner
         cls = forwarding_subclass() if spec.get("sub") else forwarding_class()
         return cls()(inner)
     if t == "or":
-        return build(spec["a"], wrap_custom) | build(spec["b"], wrap_custom)
+        return build(spec["a"], wrap_custom, share) | build(spec["b"], wrap_custom, share)
     if t == "add":
-        return build(spec["a"], wrap_custom) + build(spec["b"], wrap_custom)
+        return build(spec["a"], wrap_custom, share) + build(spec["b"], wrap_custom, share)
     if t == "required":
         from d42.utils import make_required
-        d = build(spec["d"], wrap_custom)
+        d = build(spec["d"], wrap_custom, share)
         return make_required(d) if spec["keys"] is None else make_required(d, list(spec["keys"]))
     if t == "subst":
         from d42 import substitute
-        return substitute(build(spec["s"], wrap_custom), spec["v"])
+        return substitute(build(spec["s"], wrap_custom, share), spec["v"])
     raise ValueError(f"unknown spec node {t!r}")
+
+
+def with_repeats(draw, spec):
+    """copy one member spec onto a sibling position here and there, so that equal sub-specs occur
+    (and, with build(share=...), one live object stands at several positions)"""
+    s = dict(spec)
+    t = s["t"]
+    if t == "list" and len(s.get("elems", [])) >= 2:
+        el = [with_repeats(draw, e) for e in s["elems"]]
+        if draw(st.booleans()):
+            i, j = draw(st.integers(0, len(el) - 1)), draw(st.integers(0, len(el) - 1))
+            el[j] = el[i]
+        s["elems"] = el
+    elif t == "list" and "elem" in s:
+        s["elem"] = with_repeats(draw, s["elem"])
+    elif t == "dict" and len(s.get("entries", [])) >= 2:
+        en = [dict(e, spec=with_repeats(draw, e["spec"])) for e in s["entries"]]
+        if draw(st.booleans()):
+            i, j = draw(st.integers(0, len(en) - 1)), draw(st.integers(0, len(en) - 1))
+            en[j] = dict(en[j], spec=en[i]["spec"])
+        s["entries"] = en
+    elif t == "any" and len(s.get("alts", [])) >= 2:
+        s["alts"] = [with_repeats(draw, a) for a in s["alts"]]
+    elif t in ("alias", "custom"):
+        s["spec"] = with_repeats(draw, s["spec"])
+    return s
 
 
 # ----------------------------------------------------------------------------------------------
